@@ -38,7 +38,7 @@ def parse_color(s, alpha=1.0):
         h = s[1:]
         if len(h) == 4:
             h = "".join(ch + ch for ch in h)
-        return (int(h[0:2], 16), int(h[2:4], 16), int(h[4:6], 16), int(h[6:8], 16) / 255), None
+        return (int(h[0:2], 16), int(h[2:4], 16), int(h[4:6], 16), alpha * int(h[6:8], 16) / 255), None
     rgb = ImageColor.getrgb(s)
     return (rgb[0], rgb[1], rgb[2], alpha), None
 
